@@ -13,6 +13,7 @@ import CookModel.Lemmas.SpansUtf8
 import CookModel.Lemmas.SpansTexts
 import CookModel.Lemmas.ReportPrep
 import CookModel.Lemmas.SpansDataEv
+import CookModel.Lemmas.SpansDataUnit
 /-
   C04  Every reported source location is in bounds, on char boundaries, faithful.
 
@@ -761,6 +762,28 @@ theorem C04_inter_ref_is_read_from_span {α : Type} [Arith α] (cs : CharSpec) (
       SpanText s (pullToks cs s) d.span ∧ readInterRef (toksIn (pullToks cs s) d.span) = some d.val :=
   fun ev hev => (pullEvents_evFull cs ext s ev hev).2.2.2
 
+/-- **The unit of a quantity is the text of the tokens up to the end of the quantity** (both syntaxes; what
+    ADVANCED_UNITS changes is only where the unit starts).  For every input, every ingredient or timer event and its
+    located quantity `q` with a unit `u`: there is an offset `o` — just after the `%`, or at the first word after the
+    value in the ADVANCED_UNITS syntax — such that the tokens of the document between `o` and `q.span.end` are adjacent
+    and not empty, spell `input[o .. q.span.end]`, `u` IS the text `BlockParser::text` assembles from them at `o`, and so
+    its characters are their visible characters.  (That every fragment of `u` is an ordered input slice is
+    `C04_event_text_fragments_ordered`; a cookware item keeps no unit.) -/
+theorem C04_unit_is_text_of_tokens_to_quantity_end {α : Type} [Arith α] (cs : CharSpec) (ext : Ext) (s : List Char) :
+    ∀ ev ∈ (pullEvents (α := α) cs ext s).1.toList, ∀ q ∈ ev.quantities, ∀ u, q.val.unit = some u → ∃ o,
+      toksIn (pullToks cs s) ⟨o, q.span.stop⟩ <:+: pullToks cs s ∧
+      toksIn (pullToks cs s) ⟨o, q.span.stop⟩ ≠ [] ∧
+      SpanText s (pullToks cs s) ⟨o, q.span.stop⟩ ∧
+      u = buildText o (toksIn (pullToks cs s) ⟨o, q.span.stop⟩) ∧
+      u.text = (toksIn (pullToks cs s) ⟨o, q.span.stop⟩).flatMap vis :=
+  pullEvents_unitFaithful cs ext s
+
+/-- non-vacuity: an ingredient event with a quantity carries one located quantity; the unit text of the tokens `g`
+    after a `%` at byte 6 -/
+example : (Ev.ingredient (α := Rat) ⟨⟨⟨⟨0⟩, ⟨0, 0⟩⟩, none, ⟨[⟨['a'], 1, false⟩], 1, false⟩, none,
+    some ⟨⟨⟨⟨.number (.regular 1), ⟨3, 4⟩⟩, none⟩, some ⟨[⟨['g'], 5, false⟩], 5, false⟩⟩, ⟨3, 6⟩⟩, none⟩, ⟨0, 7⟩⟩).quantities.length = 1 := rfl
+example : buildText 5 [⟨.word, ['g'], 5⟩] = ⟨[⟨['g'], 5, false⟩], 5, false⟩ := by decide
+
 /-- `readModifiers`, flag by flag: the flag of a modifier character is set iff a token of that kind occurs among the
     tokens outside the parenthesised groups (`modTop false`); and in the token stream of any input the tokens the
     readers look at ARE their characters: kind `at` is `@`, `and` is `&`, `question` is `?`, `plus` is `+`, `minus`
@@ -807,27 +830,27 @@ example : readValue (α := Rat) toyCharSpec true 0 [⟨.word, ['a'], 0⟩, ⟨.w
 /-! ### task 2: the locations the analysis retains and the AST, at full strength -/
 
 /-- **Every location the analysis retains and every AST node is an event's payload, so it has everything C04 says
-    about events.**  `EvFull cs ext input ev` = `EvSpansOKO 0 input ev` (every span valid, every text faithful with
+    about events.**  `EvAll cs ext input ev` = `EvSpansOKO 0 input ev` (every span valid, every text faithful with
     ordered, disjoint, non-empty fragments inside the text's span: `C04_event_text_fragments_ordered`) and
-    `EvFaithful cs ext input ev` (the three theorems above).  It holds of every event of `PullParser` and of the
+    `EvFaithful cs ext input ev` (the three theorems above) and `UnitFaithful` of its quantities
+    (`C04_unit_is_text_of_tokens_to_quantity_end`).  It holds of every event of `PullParser` and of the
     metadata-only scanner; the `locations` the analysis keeps for ingredients and cookware are payloads of such events
     (`KeptAll`, for `parse` and `parse_metadata`); and so is every block of the AST: front matter, metadata entry,
     section as the event, a step item by item, a text block text by text (`KeptAstBlock`).  (Proved for an arbitrary
     predicate on events: Lemmas/SpansKept.lean.) -/
 theorem C04_retained_and_ast_full {α : Type} [Arith α] (env : Env) (input : Str) :
-    (∀ ev ∈ (pullEvents (α := α) env.cs env.ext input).1.toList, EvFull env.cs env.ext input ev) ∧
-    (∀ ev ∈ (pullMetaEvents (α := α) env.cs env.ext input).1.toList, EvFull env.cs env.ext input ev) ∧
-    (∀ c, (parseRecipe (α := α) env input).output = some c → KeptAll (EvFull env.cs env.ext input) c) ∧
-    (∀ c, (parseMetadata (α := α) env input).output = some c → KeptAll (EvFull env.cs env.ext input) c) ∧
-    (∀ b ∈ (buildAstOfInput (α := α) env.cs env.ext input).blocks, KeptAstBlock (EvFull env.cs env.ext input) b) :=
-  ⟨pullEvents_evFull _ _ _, pullMetaEvents_evFull _ _ _,
-   kept_parseRecipe _ env input (pullEvents_evFull _ _ _),
-   kept_parseMetadata _ env input (pullMetaEvents_evFull _ _ _),
-   kept_buildAstOfInput _ env.cs env.ext input (pullEvents_evFull _ _ _)⟩
+    (∀ ev ∈ (pullEvents (α := α) env.cs env.ext input).1.toList, EvAll env.cs env.ext input ev) ∧
+    (∀ ev ∈ (pullMetaEvents (α := α) env.cs env.ext input).1.toList, EvAll env.cs env.ext input ev) ∧
+    (∀ c, (parseRecipe (α := α) env input).output = some c → KeptAll (EvAll env.cs env.ext input) c) ∧
+    (∀ c, (parseMetadata (α := α) env input).output = some c → KeptAll (EvAll env.cs env.ext input) c) ∧
+    (∀ b ∈ (buildAstOfInput (α := α) env.cs env.ext input).blocks, KeptAstBlock (EvAll env.cs env.ext input) b) :=
+  ⟨pullEvents_evAll _ _ _, pullMetaEvents_evAll _ _ _,
+   kept_parseRecipe _ env input (pullEvents_evAll _ _ _),
+   kept_parseMetadata _ env input (pullMetaEvents_evAll _ _ _),
+   kept_buildAstOfInput _ env.cs env.ext input (pullEvents_evAll _ _ _)⟩
 
-/-- spelled out for one retained ingredient location and for the texts of an AST step item: the fragments of its name
-    are ordered slices of the input inside the name's span, its modifier set is read from the tokens at the modifier
-    span -/
+/-- spelled out for one retained ingredient location: the fragments of each of its texts (name, alias, note, unit) are
+    ordered slices of the input inside the text's span, its modifier set is read from the tokens at the modifier span -/
 theorem C04_retained_ingredient_spelled {α : Type} [Arith α] (env : Env) (input : Str) (c : Col α)
     (hc : (parseRecipe (α := α) env input).output = some c) :
     ∀ li ∈ c.locIngr.toList,
@@ -836,7 +859,7 @@ theorem C04_retained_ingredient_spelled {α : Type} [Arith α] (env : Env) (inpu
       ModsFaithful env.cs input li.val.modifiers := by
   intro li hli
   have h := ((C04_retained_and_ast_full (α := α) env input).2.2.1 c hc).1 li hli
-  exact ⟨fun t ht => (h.1.texts t ht).spelled, h.2.2.1 _ (by simp [Ev.modifierSets])⟩
+  exact ⟨fun t ht => (h.1.1.texts t ht).spelled, h.1.2.2.1 _ (by simp [Ev.modifierSets])⟩
 
 /-- non-vacuity: `KeptAll` of a collector with one recorded ingredient says `Q` of that ingredient; an AST step block
     says `Q` of each item -/
@@ -854,11 +877,12 @@ example (Q : Ev Rat → Prop) (t : Text) : KeptAstBlock Q (.step [.text t]) ↔ 
     `start ≤ end`; texts faithful; content events in source order; every label can be cut out), and in addition:
     * (5a) the content events INCLUDING the front-matter event are in source order without overlapping, each a valid
       span — full stream and metadata-only stream;
-    * (4, 5b, derived data) every event of both streams is `EvFull`: valid spans, every text with ordered, disjoint,
+    * (4, 5b, derived data) every event of both streams is `EvAll`: valid spans, every text with ordered, disjoint,
       non-empty, faithful fragments inside the text's span, and every derived datum — quantity value, scaling lock,
       modifier set, intermediate-reference data — is the reading of the tokens inside its span, which spell the input
       slice at that span (`C04_value_is_parse_of_slice`, `C04_modifiers_are_read_from_span`,
-      `C04_inter_ref_is_read_from_span`);
+      `C04_inter_ref_is_read_from_span`), and every unit is the text of the tokens up to the end of its quantity
+      (`C04_unit_is_text_of_tokens_to_quantity_end`);
     * (2, 3) the same of every location the analysis retains (`parse`, `parse_metadata`) and of every AST node;
     * (6) the labels `write_report` hands to the renderer are the diagnostic's labels, sorted by (start, end), valid
       spans, coloured `COLORS[k mod 7]` (the table is generated from src/error.rs), and no modelled panic site of the
@@ -872,11 +896,11 @@ def C04_statement_full : Prop :=
     (∀ ev ∈ (pullEvents (α := Rat) env.cs env.ext input).1.toList, ∀ sp, ev.srcSpanF = some sp → SpanOK 0 input sp) ∧
     SrcOrderedF (pullMetaEvents (α := Rat) env.cs env.ext input).1.toList ∧
     (∀ ev ∈ (pullMetaEvents (α := Rat) env.cs env.ext input).1.toList, ∀ sp, ev.srcSpanF = some sp → SpanOK 0 input sp) ∧
-    (∀ ev ∈ (pullEvents (α := Rat) env.cs env.ext input).1.toList, EvFull env.cs env.ext input ev) ∧
-    (∀ ev ∈ (pullMetaEvents (α := Rat) env.cs env.ext input).1.toList, EvFull env.cs env.ext input ev) ∧
-    (∀ c, (parseRecipe (α := Rat) env input).output = some c → KeptAll (EvFull env.cs env.ext input) c) ∧
-    (∀ c, (parseMetadata (α := Rat) env input).output = some c → KeptAll (EvFull env.cs env.ext input) c) ∧
-    (∀ b ∈ (buildAstOfInput (α := Rat) env.cs env.ext input).blocks, KeptAstBlock (EvFull env.cs env.ext input) b) ∧
+    (∀ ev ∈ (pullEvents (α := Rat) env.cs env.ext input).1.toList, EvAll env.cs env.ext input ev) ∧
+    (∀ ev ∈ (pullMetaEvents (α := Rat) env.cs env.ext input).1.toList, EvAll env.cs env.ext input ev) ∧
+    (∀ c, (parseRecipe (α := Rat) env input).output = some c → KeptAll (EvAll env.cs env.ext input) c) ∧
+    (∀ c, (parseMetadata (α := Rat) env input).output = some c → KeptAll (EvAll env.cs env.ext input) c) ∧
+    (∀ b ∈ (buildAstOfInput (α := Rat) env.cs env.ext input).blocks, KeptAstBlock (EvAll env.cs env.ext input) b) ∧
     (∀ d, (d ∈ (parseRecipe (α := Rat) env input).diags.toList ∨ d ∈ (parseMetadata (α := Rat) env input).diags.toList) →
       ∃ cs : List (Span × String), assignColors 0 (sortLabels d.labels) = some cs ∧
         cs.map (·.1) = sortLabels d.labels ∧
